@@ -23,7 +23,7 @@ struct GravSetup {
 };
 
 static void grav_ref_at(const GravSetup& G, Q X, Q Y, Q Z, GravRef& o) {
-  int D = std::max(std::max(G.dg.nmx, 0), 60);
+  int D = G.dz.nmx;
   ref::HarmPoint g(X, Y, Z); ref::Legendre L; L.compute(D, D, G.rn, g.t, g.u);
   ref::HarmResult m = ref::harm_sum(L, g, G.am, G.dg.C, G.dg.S, G.dg.nmx, G.dg.mmx, true);
   if (g.u < (Q)EPS15) { ref::HarmPoint g2 = g; g2.u = EPS15; ref::Legendre L2; L2.compute(D, D, G.rn, g2.t, g2.u);
@@ -43,8 +43,8 @@ static void grav_ref_at(const GravSetup& G, Q X, Q Y, Q Z, GravRef& o) {
   o.T0term = (G.GMm - G.GMr) / g.r;
   // as implemented: harmonic difference with the normal zonal terms up to the model's degree only
   ref::Legendre Lf; const ref::Legendre* Lz = &L;
-  ref::HarmResult z = ref::harm_sum(*Lz, g, G.am, G.dz.C, G.dz.S, G.nz, 0, true);       // zonal terms n = 2..nz (dense has n up to 60)
-  ref::HarmResult zall = ref::harm_sum(*Lz, g, G.am, G.dz.C, G.dz.S, 60, 0, true, &G.dzA.C, &G.dzA.S);
+  ref::HarmResult z = ref::harm_sum(*Lz, g, G.am, G.dz.C, G.dz.S, G.nz, 0, true);       // zonal terms n = 2..nz
+  ref::HarmResult zall = ref::harm_sum(*Lz, g, G.am, G.dz.C, G.dz.S, D, 0, true, &G.dzA.C, &G.dzA.S);
   ref::HarmResult zs = ref::harm_sum(*Lz, g, G.am, G.dzS.C, G.dzS.S, G.nz, 0, true);
   Q q00 = G.am / g.r;                                               // the (0,0) term of the model sum (C00 = 1)
   Q ir = 1 / g.r;
@@ -57,6 +57,8 @@ static void grav_ref_at(const GravSetup& G, Q X, Q Y, Q Z, GravRef& o) {
   o.sV = k * m.sabs_n + fabsq(o.Phi) * 2; o.sG = k * m.gabs_n + G.om * G.om * g.r * 2;
   o.sT = k * (m.sabs_n - q00 + zall.sabs_n) + fabsq(o.T0term);
   o.sD = k * (m.gabs_n - 2 * q00 * ir + zall.gabs_n) + 2 * fabsq(o.T0term) * ir;
+  // float128 noise of REF itself (closed form and its Richardson gradient)
+  o.allowV += (Q)1e-30 * (fabsq(o.Vm) + fabsq(o.V0)); o.allowG += (Q)1e-22 * (fabsq(o.gV.x) + fabsq(o.gV.y) + fabsq(o.gV.z));
   (void)Lf;
 }
 
@@ -64,6 +66,7 @@ static void sec_gravity(Ctx& c, uint64_t idx) {
   vh::Rng& r = c.rng;
   GravSetup G;
   int N = model_degree(c, true);
+  set_degree_factor(N);
   int Mg = r.coin(0.8) ? N : r.range(0, N);
   ref::EgmMeta& em = G.em;
   int normsel = r.coin(0.12) ? 1 : (r.coin(0.3) ? -1 : 0);       // schmidt gravity models are legal but rare
@@ -113,14 +116,14 @@ static void sec_gravity(Ctx& c, uint64_t idx) {
   G.dg = dense_of(G.grav, Nmax, Mmax, D); G.dg.C[0] = 1;
   G.dc = dense_of(G.corr, Nmax, Mmax, D);
   G.nz = G.dg.nmx - (G.dg.nmx & 1);
-  { G.dz.C.assign((size_t)ref::tri(D, D) + 1, 0); G.dz.S.assign(G.dz.C.size(), 0); G.dzS = G.dz; G.dz.nmx = G.dzS.nmx = 60; G.dz.mmx = G.dzS.mmx = 0;
+  { G.dz.C.assign((size_t)ref::tri(D, D) + 1, 0); G.dz.S.assign(G.dz.C.size(), 0); G.dzS = G.dz; G.dz.nmx = G.dzS.nmx = D; G.dz.mmx = G.dzS.mmx = 0;
     Q mult = G.GMr / G.GMm;
-    for (int n = 2; n <= 60; n += 2) { mult *= (G.a / G.am) * (G.a / G.am); Q jn = ng.Jn(n);
+    for (int n = 2; n <= D; n += 2) { mult *= (G.a / G.am) * (G.a / G.am); Q jn = ng.Jn(n);
       G.dz.C[ref::tri(n, 0)] = -mult * jn / (G.rn == ref::HARM_FULL ? sqrtq((Q)(2 * n + 1)) : (Q)1);
       G.dzS.C[ref::tri(n, 0)] = -mult * jn / sqrtq((Q)(2 * n + 1)); }
     // magnitudes of the parts J_n is made of (H&M 2-90, 2-92: e^2/3 and the rotational term, which may cancel), for the condition number of T
     G.dzA = G.dz; Q mrot = G.om * G.om * G.a * G.a * G.a / fabsq(G.GMr), J2parts = fabsq(ng.e2) / 3 + mrot / 3 * 2; mult = fabsq(G.GMr / G.GMm);
-    for (int n = 2; n <= 60; n += 2) { mult *= (G.a / G.am) * (G.a / G.am); int k = n / 2;
+    for (int n = 2; n <= D; n += 2) { mult *= (G.a / G.am) * (G.a / G.am); int k = n / 2;
       Q parts = 3 * powq(fabsq(ng.e2), k - 1) * (fabsq(ng.e2) * (k + 1) + 5 * k * J2parts) / ((Q)(2 * k + 1) * (2 * k + 3));
       G.dzA.C[ref::tri(n, 0)] = mult * parts / (G.rn == ref::HARM_FULL ? sqrtq((Q)(2 * n + 1)) : (Q)1); } }
   // inspectors
